@@ -35,7 +35,7 @@ def run_demo():
     return r.returncode, (r.stdout + r.stderr)[-600:]
 
 
-def pytest(args, n=8):
+def pytest(args, n=int(os.environ.get("CONFIRM_N", "8"))):
     r = sh(f"timeout 7200 {PY} -m pytest -q -p no:cacheprovider --timeout=900 -n {n} {args} 2>&1 | tail -60")
     txt = r.stdout
     failed = re.findall(r"^(?:FAILED|ERROR) (\S+)", txt, re.M)
